@@ -212,6 +212,8 @@ class LegInterp:
                 i = _int(e.slice)
                 if i is not None and -len(base.items) <= i < len(base.items):
                     return base.items[i]
+            if isinstance(base, SigmaVal) and isinstance(e.slice, ast.Name) and isinstance(self.env.get(e.slice.id), Opaque):
+                return base
             if isinstance(base, SigmaVal):
                 idx = e.slice.elts if isinstance(e.slice, ast.Tuple) else [e.slice]
                 p = None
@@ -231,6 +233,13 @@ class LegInterp:
                 idx = e.slice.elts if isinstance(e.slice, ast.Tuple) else [e.slice]
                 if all(isinstance(x, ast.Constant) and isinstance(x.value, int) for x in idx) and len(idx) == base.rank:
                     return Scalar(norm(e))
+                full = lambda x: isinstance(x, ast.Slice) and x.lower is None and x.upper is None and x.step is None
+                sel = [k for k, x in enumerate(idx) if not full(x)]
+                if len(idx) == base.rank and len(sel) == 1 and isinstance(idx[sel[0]], ast.Name) and \
+                        isinstance(self.env.get(idx[sel[0]].id), Opaque):
+                    # restriction of one axis by an index set: same legs (fewer values on that leg)
+                    self.shared['events'].append(('restrict', e, self.fi, base, sel[0]))
+                    return base
                 raise LegError(f'tensor subscript `{norm(e)[:50]}` not in the leg domain')
             return Opaque(norm(e))
         if isinstance(e, ast.BinOp):
@@ -408,8 +417,10 @@ class LegInterp:
             if isinstance(v, SigmaVal):
                 return SigmaVal(v.sid, v.dim, v.exponent / 2, v.rs, v.p)
             return Scalar(norm(e))
-        if f in ('qr', 'split_matrix_svd'):
+        if f in ('qr', 'split_matrix_svd', 'np.linalg.svd', 'np.linalg.qr'):
             return self.factorise(e, f)
+        if f == 'retained_bond_indices':
+            return Opaque(norm(e))
         if f == 'abs':
             return Scalar(norm(e))
         if f in ('np.array', 'np.identity', 'np.zeros', 'np.ones'):
@@ -477,8 +488,11 @@ class LegInterp:
         m = self.ev(e.args[0])
         if not isinstance(m, TVal) or m.rank != 2:
             raise LegError(f'{f}: first argument is not a matrix in the leg domain')
-        q0 = self.charge(e.args[1])
-        q1 = self.charge(e.args[2])
+        plain = f.startswith('np.linalg.')
+        q0 = self.charge(e.args[1]) if not plain else QV([])
+        q1 = self.charge(e.args[2]) if not plain else QV([])
+        if plain:
+            f = 'qr' if f.endswith('qr') else 'split_matrix_svd'
         self.shared['counter'] += 1
         n = self.shared['counter']
         tag = f'{"QR" if f == "qr" else "SVD"}{n}'
@@ -513,12 +527,14 @@ class LegInterp:
         L = TVal(ln, [lrows, [lb]])
         R = TVal(rn, [[rb], rcols])
         qb = QV([(1, f'qbond#{n}')])
-        rec = {'node': e, 'kind': f, 'm': m, 'q0': q0, 'q1': q1, 'id': n, 'fi': self.fi,
+        rec = {'node': e, 'kind': f, 'm': m, 'q0': q0, 'q1': q1, 'id': n, 'fi': self.fi, 'plain': plain,
                'tol': e.args[3] if len(e.args) > 3 else None}
         self.factor_calls.append(rec)
         self.shared['factor_calls'].append(rec)
         if f == 'qr':
-            return TupleVal([L, R, qb])
+            return TupleVal([L, R] if plain else [L, R, qb])
+        if plain:
+            return TupleVal([L, SigmaVal(n, f'bond#{n}'), R])
         return TupleVal([L, SigmaVal(n, f'bond#{n}'), R, qb])
 
 
